@@ -39,7 +39,8 @@ TReset ==
      /\ left' = [t \in Threads |-> IF t < e.n THEN e.calls ELSE 0] /\ rets' = [t \in Threads |-> << >>]
      /\ outcome' = IF (e.aes \in {0, -9}) /\ (e.sha \in {0, -9}) THEN "pass" ELSE "fail"
      /\ runs' = 0 /\ finished' = FALSE
-     /\ tests' = 0 /\ vfin' = FALSE /\ vpass' = ((e.aes \in {0, -9}) /\ (e.sha \in {0, -9})) /\ nret' = 0 /\ lostp' = FALSE
+     /\ tests' = 0 /\ vfin' = FALSE /\ vpass' = ((e.aes \in {0, -9}) /\ (e.sha \in {0, -9})) /\ nret' = 0
+     /\ lostp' = ("free" \in DOMAIN e)       \* free-running behaviours (selfstall) are judged by the verdict layer only
      /\ nthreads' = e.n /\ ncall' = e.calls
      /\ Adv(<< >>)
 
